@@ -133,7 +133,19 @@ func c18Explore(res *Result, raw json.RawMessage, job *Job) {
 					res.Executions++
 					res.Steps += int64(len(seq))
 					vdet.Reset()
-					vdet.HashFn = func(seed uint64, key any) uint64 { return hs[key.(int)] }
+					// the adversarial raw hashes hold for the hasher seed of the current table; a hasher that is
+					// re-seeded while the table (and its counters) stays gives every key new positions
+					var tableSeed uint64
+					haveSeed := false
+					vdet.HashFn = func(seed uint64, key any) uint64 {
+						if !haveSeed {
+							tableSeed, haveSeed = seed, true
+						}
+						if seed != tableSeed {
+							return ^hs[key.(int)] * 0x9e3779b97f4a7c15
+						}
+						return hs[key.(int)]
+					}
 					sk := otter.VerifNewSketch()
 					ops := []string{fmt.Sprintf("cap=%d hashes=%x,%x,%x", capa, hs[0], hs[1], hs[2])}
 					for k := 0; k < 3; k++ {
@@ -146,6 +158,7 @@ func c18Explore(res *Result, raw json.RawMessage, job *Job) {
 						fail("nonzero-before-init", "frequency", ops, "frequency(0) = %d after an increment on an uninitialised sketch", f)
 					}
 					sk.EnsureCapacity(capa)
+					haveSeed = false // the first table is built here (with the seed its hasher has from now on)
 					var lb [3]uint64
 					prevSize := sk.Size()
 					for i, k := range seq {
@@ -178,8 +191,9 @@ func c18Explore(res *Result, raw json.RawMessage, job *Job) {
 							sk.EnsureCapacity(to)
 							ops = append(ops, fmt.Sprintf("ensureCapacity(%d)", to))
 							if sk.TableLen() != before {
-								// a larger table starts a new period with empty counters
+								// a larger table starts a new period with empty counters (and may re-seed its hasher)
 								lb = [3]uint64{}
+								haveSeed = false
 							}
 							// a request that the current table already satisfies must not lose what was recorded
 							prevSize = sk.Size()
